@@ -4,6 +4,9 @@
   R10.3  x.dagger(phase_dual=p) is x.conj(phase_dual=p) followed by the fermionic transpose to reversed axes, for p in {False, True}
   R10.4  contracting x.conj(phase_dual=p) with x over all axes (either operand order, every contraction strategy) pairs every stored
          block with its own conjugate exactly once and with sign +1 whenever every index is ket-like (non-dual) or p is True
+  R10.5  two-tensor networks psi = {A(i, j), B(j*, k)}: <psi|psi> obtained by conjugating the contracted array, by conjugating tensor
+         by tensor (dangling legs that were bra-like sign-flipped), site by site and ket-first are the same signed sum of products, and
+         every product |a_s b_t|^2 enters with +1
 """
 
 from __future__ import annotations
@@ -114,6 +117,160 @@ def _adjoint_job(state, sp):
     except LayoutError as e:
         wit.bad("R10.4|form", f"{where}: {e}")
     return wit.w, wit.n
+
+
+def _monomials(term, sign=1):
+    """{sorted tuple of leaf reprs (conjugation kept): net sign}: products distributed over sums, re-indexing ignored"""
+    if isinstance(term, tuple) and term:
+        h = term[0]
+        if h == "sum":
+            out = {}
+            for t in term[1]:
+                for k, v in _monomials(t, sign).items():
+                    out[k] = out.get(k, 0) + v
+            return out
+        if h == "zeros":
+            return {}
+        if h == "neg":
+            return _monomials(term[1], -sign)
+        if h == "conj":
+            return {tuple(sorted(("~" + x[1:]) if x.startswith("*") else ("*" + x) for x in k)): v for k, v in _monomials(term[1], sign).items()}
+        if h in ("reshape", "transpose", "slice", "einsum") and len(term) > 1:
+            return _monomials(term[2] if h == "einsum" else term[1], sign)
+        if h in ("tensordot", "matmul"):
+            out = {}
+            for ka, va in _monomials(term[1], 1).items():
+                for kb, vb in _monomials(term[2], 1).items():
+                    k = tuple(sorted(ka + kb))
+                    out[k] = out.get(k, 0) + sign * va * vb
+            return out
+        if h in ("placed", "concat"):
+            raise LayoutError("structured block left in a contraction result")
+    return {(repr(term),): sign}
+
+
+def _scalar(w, ev, r):
+    if isinstance(r, Obj):
+        r = w.meth(ev, r, "phase_sync")
+        b = r.fields["_blocks"].get(())
+        t = None if b is None else b.term
+    else:
+        t = getattr(r, "term", None)
+    if t is None:
+        return {}
+    return {tuple(x.replace("~", "") for x in k): v for k, v in _monomials(t).items() if v != 0}
+
+
+def _network_job(state, job):
+    prog, tier = state
+    A, B = job
+    w = World(prog)
+    wit = Witness()
+    where = f"A(i, j): {A.describe()} label {A.label} ; B(j*, k): {B.describe()} label {B.label}"
+
+    def td(ev, a, b, axes):
+        return w.fn(ev, "symmray.interface:tensordot", a, b, axes=axes, preserve_array=True)
+
+    def bra(ev, x, dangling):
+        """conjugate; the dangling legs that were bra-like (dual) get their sign flipped"""
+        duals = [bool(ix.fields["_dual"]) for ix in x.fields["_indices"]]
+        c = w.meth(ev, x, "conj")
+        flip = [ax for ax in dangling if duals[ax]]
+        return w.meth(ev, c, "phase_flip", *flip) if flip else c
+
+    try:
+        ev = w.ev()
+        routes = {}
+        K = td(ev, A.build(w), B.build(w), ((1,), (0,)))
+        Kc = bra(ev, td(ev, A.build(w), B.build(w), ((1,), (0,))), (0, 1))
+        routes["K . conj(K)"] = _scalar(w, ev, td(ev, K, Kc, ((0, 1), (0, 1))))
+        K = td(ev, A.build(w), B.build(w), ((1,), (0,)))
+        Kc = bra(ev, td(ev, A.build(w), B.build(w), ((1,), (0,))), (0, 1))
+        routes["conj(K) . K"] = _scalar(w, ev, td(ev, Kc, K, ((0, 1), (0, 1))))
+        # tensor by tensor
+        def parts():
+            return A.build(w), B.build(w), bra(ev, A.build(w), (0,)), bra(ev, B.build(w), (1,))
+        a, b, ac, bc = parts()
+        routes["(A.B) . (A*.B*)"] = _scalar(w, ev, td(ev, td(ev, a, b, ((1,), (0,))), td(ev, ac, bc, ((1,), (0,))), ((0, 1), (0, 1))))
+        a, b, ac, bc = parts()
+        routes["(A*.B*) . (A.B)"] = _scalar(w, ev, td(ev, td(ev, ac, bc, ((1,), (0,))), td(ev, a, b, ((1,), (0,))), ((0, 1), (0, 1))))
+        a, b, ac, bc = parts()
+        routes["(A*.A) . (B*.B)"] = _scalar(w, ev, td(ev, td(ev, ac, a, ((0,), (0,))), td(ev, bc, b, ((1,), (1,))), ((0, 1), (0, 1))))
+        a, b, ac, bc = parts()
+        routes["((A.B).A*).B*"] = _scalar(w, ev, td(ev, td(ev, td(ev, a, b, ((1,), (0,))), ac, ((0,), (0,))), bc, ((0, 1), (1, 0))))
+        wit.tick("R10.5")
+        ref_name, ref = next(iter(routes.items()))
+        for name, val in routes.items():
+            if val != ref:
+                diff = [k for k in set(val) | set(ref) if val.get(k) != ref.get(k)][:1]
+                wit.bad(f"R10.5|route {name}", f"{where}: <psi|psi> along `{name}` differs from `{ref_name}` (e.g. product {diff})")
+        # the products |a_s b_t|^2 enter with +1 on every route
+        for name, val in routes.items():
+            diag = {k: v for k, v in val.items() if len(k) == 4 and sorted(x.lstrip("*") for x in k)[0::2] == sorted(x.lstrip("*") for x in k)[1::2]
+                    and sum(x.startswith("*") for x in k) == 2}
+            neg = [k for k, v in diag.items() if v != 1]
+            if neg or (val and not diag):
+                wit.bad(f"R10.5|sign {name}", f"{where}: along `{name}` a product |a b|^2 enters <psi|psi> with coefficient "
+                                              f"{diag.get(neg[0]) if neg else 'none'} instead of +1 ({neg[:1]})")
+    except Unsupported as e:
+        raise AnalysisError(f"network norm outside the evaluable sub-language: {e}")
+    except Raised as e:
+        wit.bad("R10.5|refused", f"{where}: raises {e.what[:120]}")
+    except PYERR as e:
+        wit.bad("R10.5|fails", f"{where}: {type(e).__name__}: {e}")
+    except LayoutError as e:
+        wit.bad("R10.5|form", f"{where}: {e}")
+    return wit.w, wit.n
+
+
+def network_cases(tier):
+    import itertools
+
+    from engine.absops import partner
+
+    out = []
+    syms = ("Z2", "U1") if tier == "quick" else ("Z2", "U1", "Z2Z2", "U1U1")
+    for sym in syms:
+        model = Model(sym)
+        charges = (model.combine(), NONTRIVIAL[sym])
+        for duals in itertools.product((False, True), repeat=2):
+            for ca in charges:
+                for cb in charges:
+                    for la, lb in ((1, 2), (2, 1)):
+                        for drop in (("none",) if tier == "quick" else ("none", "alternate")):
+                            A = Spec(sym, duals, ca, TABLES[sym][:2], drop=drop, fermionic=True, signs=1, tag="a", label=la)
+                            if not A.sectors():
+                                continue
+                            for kdual in (False, True):
+                                B = partner(A, 1, 1, charge=cb, tag="b")
+                                if B is None:
+                                    continue
+                                B.label = lb
+                                B.duals = (B.duals[0], kdual)
+                                if B.sectors():
+                                    out.append((A, B))
+    return out
+
+
+def check_networks(prog, ctx):
+    from engine.parallel import pmap
+
+    cases = network_cases(ctx.tier)
+    ctx.need(len(cases) >= 60, f"R10.5: only {len(cases)} two-tensor networks")
+    wits, n = {}, 0
+    for wmap, cnt in pmap(_network_job, (prog, ctx.tier), cases):
+        for k, v in wmap.items():
+            wits.setdefault(k, v)
+        n += cnt.get("R10.5", 0)
+    f = prog.func("symmray.fermionic_core:FermionicArray.conj")
+    msg = ("two-tensor networks: <psi|psi> is the same signed sum of products whether the contracted array or each tensor is conjugated "
+           "(bra-like dangling legs sign-flipped), site by site or ket first, in either operand order, and every |a b|^2 enters with +1")
+    mine = {k.split("|", 1)[1]: v for k, v in wits.items()}
+    if not mine:
+        ctx.check(True, "R10.5", f, f.node, "R10.5", f"{msg} ({n} networks x 6 routes)")
+    for fam, wmsg in sorted(mine.items()):
+        ctx.check(False, "R10.5", f, f.node, fam, f"{msg} — witness: {wmsg}")
+    return n
 
 
 def check_adjoint(prog, ctx):
